@@ -119,7 +119,10 @@ func checkC20(c *Ctx, e *Env) {
 		c.Undecide("C20.I3", "packet#type", "-", "constant icatypes.EXECUTE_TX not found")
 		return
 	}
-	type res struct{ ok bool; det string }
+	type res struct {
+		ok  bool
+		det string
+	}
 	agg := map[string]*res{}
 	var order []string
 	set := func(key string, ok bool, det string) {
